@@ -172,6 +172,9 @@ pub fn run(ctx: &Ctx) -> i32 {
         let skip = [0usize, 2, 3][((i / 48) % 3) as usize];
         Some(Case18::L(LoopCase { arch, batch, iterations: iters, act, cost: if arch == 1 { 0 } else { costk }, skip_update_every: skip, vseed: i * 1000 + ctx.seed }))
     }));
+    if ctx.tier == Tier::Thorough {
+        st.merge(ctx.run_fuzz(20000, ctx.threads, &dispatch));
+    }
     finish(
         ctx,
         st,
